@@ -32,8 +32,8 @@ def mk_requests(rng, n):
         elif k < .55:
             out.append(("F", req("F", None, gen.rand_value_text(rng), fmt, str(bsz)), "F:%s:bsz%s" % ("hf" if hf else "nf", "small" if bsz < 12 else "big")))
         elif k < .80:
-            rep = rng.choice(["ymd", "ymcw", "ywd", "yd", "daisy", "ldn", "mdn", "jdn", "bizda", "sexy", "hijri"])
-            dz = rng.choice([1, 2, 100000, 150000, 910674, 910675, 911280, 911281, rng.randrange(1, 911281)])
+            rep = rng.choice(["ymd", "ymcw", "ywd", "yd", "daisy", "ldn", "mdn", "jdn", "sexy", "hijri"])
+            dz = rng.choice([1, 2, 100000, 150000, 910674, 910675, 911280, rng.randrange(1, 911281)])
             sod = None if rng.random() < .5 else str(rng.choice([0, 1, 86399, 86400, rng.randrange(86400)]))
             out.append(("R", req("R", rep, str(dz), sod, fmt, str(bsz)), "R:%s:%s:bsz%s" % (rep, "hf" if hf else "nf", "small" if bsz < 12 else "big")))
         elif k < .90:
@@ -71,14 +71,22 @@ def drv_task(task):
             if ix < 0:
                 # recoverable report somewhere in the batch: attribute to the batch
                 sh.bad("drv-safety", "drv:%s:batch" % kind, "report during a batch of %d dutdrv requests" % len(reqs),
-                       dict(driver_requests=reqs[:50], stderr=r.err[-1500:].decode("latin-1")))
+                       dict(driver_requests=reqs[:50], stderr=core.san_excerpt(r.err)))
                 continue
             c = chunk[ix]
+            if kind == "cpu-limit":
+                # bounded progress: re-run the single request with a 12x budget before calling it a hang
+                r2 = run([str(bindir / "dutdrv")], stdin=(reqs[ix] + "\n").encode("latin-1"), cpu=120, wall=300)
+                sh.procs += 1
+                if not r2.cpu_exceeded and r2.sig is None:
+                    sh.extra["slow_but_terminating"] += 1
+                    sh.ok("drv-safety", (c[0], c[2], "slow"))
+                    continue
             sig = "drv:%s:%s" % (c[0], kind)
             sigcount[sig] += 1
             suppressed[c[2]] += 1
             sh.bad("drv-safety", sig, "dutdrv %s on request %s" % (kind, reqs[ix][:200]),
-                   dict(argv=["dutdrv"], stdin=reqs[ix], stderr=r.err[-2000:].decode("latin-1")), cls=(c[0], "died", kind.split("@")[0]))
+                   dict(argv=["dutdrv"], stdin=reqs[ix], stderr=core.san_excerpt(r.err)), cls=(c[0], "died", kind.split("@")[0]))
         for c, a in zip(chunk, ans):
             if a is None:
                 continue
@@ -173,6 +181,13 @@ def tool_task(task):
         if kind == "wall-timeout":
             sh.extra["inconclusive_wall_timeouts"] += 1
             continue
+        if kind == "cpu-limit":
+            # bounded progress: once more with a 20x budget before calling it a hang
+            r = run(argv, stdin=stdin, cpu=200, wall=400, max_out=4 << 20, env={"VERIF_CANARY_ENV": CANARY, "SHELL": "/bin/" + CANARY})
+            sh.procs += 1
+            if r.sig is None and not r.san_kind():
+                sh.extra["slow_but_terminating"] += 1
+                kind = None
         if kind:
             sh.bad("tool-safety", "tool:%s:%s" % (cls, kind), "%s: %s" % (kind, core.shq(r.argv)[:300]),
                    res_replay(r), cls=(cls, "died", kind.split("@")[0]))
